@@ -53,6 +53,8 @@ RULE = ('Hypothesis-generated cases: 1-6 static-registration files forming an in
         'bindings, finalize_config default/False/True)} x skip_unknown {not passed, True, False}; '
         'finalize_config / skip_unknown are omitted, passed by keyword or passed positionally '
         '(third / fourth argument of the multi-file entry point, second of the other two); '
+        'optionally an already registered reader (a custom one, or the package reader that '
+        '`import gin` registered) is registered a second time after all others; '
         'gin.clear_config() is called after the first location is registered / after all '
         'registrations / between a failed call and its repetition (registered locations and '
         'readers survive it); after a failed call (unreadable file, unknown name) the same call '
@@ -78,6 +80,8 @@ ASSUMPTIONS = [
     'this also holds when there is nothing to parse (no files, no bindings)',
     'static registration only (dynamic-registration files belong to C19)',
     'clear_config() resets bindings, not the registered search locations and readers',
+    'registering an already registered reader again (same predicate) does not change its place in '
+    'the reader order',
     'every parse resolves every name afresh by the documented search order: a file that appears '
     'in an earlier place between two parses wins the second time',
     'a failed parse applies only statements of the text it was parsing (a prefix), so repeating '
@@ -120,6 +124,7 @@ FLOORS = {
     'reparse:earlier-copy-appeared,direct': 0.01, 'reparse:earlier-copy-appeared,included': 0.02,
     'reparse:earlier-copy-appeared,entry-multi': 0.005,
     'reparse:earlier-copy-appeared,after-clear_config': 0.01, 'reparse:winner-deleted': 0.008,
+    'rereg:order-sensitive': 0.01,
     'retry:ok,after-unknown': 0.02, 'retry:ok,after-missing': 0.03,
     'retry:ok,reparses-file-open-at-failure': 0.03, 'retry:ok,through-another-root': 0.005,
     'clear:after-first-location,more-follow': 0.05, 'clear:after-all-registrations': 0.2,
@@ -227,6 +232,7 @@ def strategy():
       'eform': st.integers(0, 8),
       'argstyle': st.integers(0, 2),
       'clear': st.integers(0, 7),
+      'rereg': st.sampled_from([0, 0, 1, 1, 2, 3, 4, 4]),
       'retry': st.one_of(st.none(), st.fixed_dictionaries({'mode': st.integers(0, 1)})),
       'reparse': st.one_of(st.none(), st.fixed_dictionaries(
           {'file': st.sampled_from([0, 0, 0, 1, 2, 3, 4, 5]), 'op': st.sampled_from([0, 0, 1]),
@@ -1094,12 +1100,39 @@ def _check(case, tmp):
       gin.clear_config()
       labels.add('clear:after-first-location' + (',more-follow' if len(m.prefixes) > 2 else ''))
   log = []
+  registered = []
   for k in range(m.nread):
     reader, exists = _make_reader(k, m.cust[k], log)
+    registered.append((reader, exists))
     if k % 2:
       gin.config.register_file_reader(exists)(reader)      # decorator form
     else:
       gin.config.register_file_reader(reader, exists)
+  # a reader that is already registered is registered a second time, after the others: its place
+  # in the order is that of its first registration
+  rereg = case.get('rereg', 0)
+  rereg_reader = None
+  if rereg == 4:
+    from gin import resource_reader     # pylint: disable=g-import-not-at-top
+    gin.config.register_file_reader(resource_reader.system_path_reader,
+                                    resource_reader.system_path_file_exists)
+    rereg_reader = 1
+    labels.add('rereg:package-reader')
+  elif rereg:
+    k = (rereg - 1) % m.nread
+    reader, exists = registered[k]
+    if rereg % 2:
+      gin.config.register_file_reader(reader, exists)
+    else:
+      gin.config.register_file_reader(exists)(reader)
+    rereg_reader = 2 + k
+    labels.add('rereg:custom-reader' + (',others-registered-in-between' if k < m.nread - 1
+                                        else ''))
+  if rereg_reader is not None:
+    for i, winner in m.resolved:
+      if winner is not None and winner[1] == rereg_reader and any(
+          l == winner[0] and r > winner[1] for l, r, _ in m.candidates(m.names[i])):
+        labels.add('rereg:order-sensitive')
   hook_snapshots = []
 
   def hook(config):
